@@ -458,7 +458,10 @@ class MultiSetCooccurrenceVectorizer(BaseCooccurrenceVectorizer):
             coo_sizes = (self.coo_initial_bytes // 20) // np.sum(average_window)
             self._coo_sizes = np.array(coo_sizes * average_window, dtype=np.int64)
 
-        self._coo_sizes = np.divmod(self._coo_sizes, self.n_threads)[0]
+        # the accumulator needs at least 20 entries to notice a full buffer and grow
+        self._coo_sizes = np.maximum(
+            np.divmod(self._coo_sizes, self.n_threads)[0], 32
+        )
 
     def _em_cooccurrence_iteration(self, token_sequences, cooccurrence_matrix):
         # call the numba function to return the new matrix.data
